@@ -257,13 +257,19 @@ class GroupBuild:
         ms = [m for m in re.finditer(pattern, body) if mask[m.start()]]
         if nth >= len(ms):
             raise X.LostAnchor('R16: fragment #%d of %s::%s (%s) not found' % (nth, rel, name, what))
-        stmt = X.strip_comments(ms[nth].group(0))
+        mt = ms[nth]
+        whole = mt.group(0)
+        if whole.rstrip().endswith('{'):
+            # the pattern names the head of a braced statement: extend to the matching closing brace
+            close = X.match_close(body, mask, mt.end() - 1)
+            whole = body[mt.start():close + 1]
+        stmt = X.strip_comments(whole)
         fname = 'verif_fragment_%s_%d' % (name, nth)
         text = 'fn %s(%s) -> (res: %s)\n%s\n{\n    %s\n    %s;\n    %s\n}\n' % (fname, sig[0], sig[1], contract.rstrip(), pre, stmt.strip().rstrip(';'), ret)
         line0 = s.src[:o + ms[nth].start()].count('\n') + 1
         self.parts.append(('fn', unit, '%s::%s fragment #%d (R16)' % (rel, name, nth), text))
         self.listing.append('### fragment under contract: %s (%s::%s, line %d, R16)\n  - %s\n  - everything else of %s is dropped; free variables and their types: %s\n%s\n' % (
-            what, rel, name, line0, 'pattern: ' + pattern, name, sig[0], X.listing(ms[nth].group(0), text, fname)))
+            what, rel, name, line0, 'pattern: ' + pattern, name, sig[0], X.listing(whole, text, fname)))
         cc = count_clauses(contract)
         if unit:
             self.unit_meta[unit] = dict(function='%s (fragment #%d: %s)' % (name, nth, what), file=rel, clauses=cc, props=list(props), spec=None)
